@@ -70,6 +70,19 @@ def _standard_arg_parser(argspec):
     return isinstance(p, str) and not p.startswith('e')
 
 
+def loose_body(envnode, specs):
+    """environments whose body or arguments are read by verbatim-type / non-standard parsers
+    (they may gobble the newline after \\begin{..}, or hold the body as an argument)"""
+    if any(not _standard_arg_parser(sp) for sp in specs):
+        return True
+    spec = getattr(envnode, 'spec', None)
+    if spec is not None and (getattr(spec, '_fn_make_body_parser', None) is not None
+                             or type(getattr(spec, 'arguments_parser', None)).__name__
+                             .startswith('_Legacy')):
+        return True
+    return False
+
+
 def check_node(s, n, out, strict=True, loose=False):
     """Anchoring of one node against the source and recursion into children.
     strict=False: only range/nesting (what tolerant results must satisfy).
@@ -79,6 +92,9 @@ def check_node(s, n, out, strict=True, loose=False):
         nodes = [x for x in _items(n)]
         lo = n.pos if getattr(n, 'pos', None) is not None else 0
         hi = n.pos_end if getattr(n, 'pos_end', None) is not None else len(s)
+        if not (0 <= lo <= hi <= len(s)):
+            out.append(('out-of-range:list', 'node list pos=%r pos_end=%r len=%d' % (lo, hi, len(s))))
+            lo, hi = 0, len(s)
         check_children_inside(nodes, lo, hi, 'list', out)
         for x in nodes:
             if x is not None:
@@ -117,6 +133,12 @@ def check_node(s, n, out, strict=True, loose=False):
     if k in ('group', 'math'):
         d = n.delimiters
         body = _items(n.nodelist)
+        bl = n.nodelist
+        if bl is not None and getattr(bl, 'pos', None) is not None \
+                and getattr(bl, 'pos_end', None) is not None \
+                and not (pos <= bl.pos <= bl.pos_end <= pe):
+            out.append(('list-outside-parent:' + k, 'body list [%r,%r) of %s node [%d,%d)'
+                        % (bl.pos, bl.pos_end, k, pos, pe)))
         if strict:
             if not (isinstance(d, (tuple, list)) and len(d) == 2 and d[0] is not None
                     and d[1] is not None):
@@ -187,10 +209,23 @@ def check_node(s, n, out, strict=True, loose=False):
         m2 = _rx_end.search(src)
         if m2:
             bitems = _items(body)
+            # the body starts where the \begin{name} token and the last argument that was
+            # written end (the library keeps blanks after them in the body)
+            mb = _rx_begin.match(src)
+            start = pos + mb.end() if mb else None
+            arg_ends = [a.pos_end for a in args if a is not None
+                        and getattr(a, 'pos_end', None) is not None]
+            if start is not None and arg_ends:
+                start = max([start] + arg_ends)
             if bitems:
                 first = next((x for x in bitems if x is not None), None)
                 if first is not None and first.pos is not None:
                     check_tiling(bitems, first.pos, pos + m2.start(), 'environment-body', out)
+                    if start is not None and first.pos != start and not loose_body(n, specs):
+                        gap = s[start:first.pos]
+                        out.append(('gap:environment-body:before-first-node',
+                                    'body of %s starts at %d but its first node at %d (%r dropped)'
+                                    % (n.environmentname, start, first.pos, gap)))
 
 
 def check_strict(s, nodelist):
